@@ -196,3 +196,114 @@ def r_target_domain(A, ctx, scope, rule="R-TARGET-DOMAIN"):
                             f"objective values instead of an explanatory error",
                        loc=f"{g.module.relpath}:{g.node.lineno}")
     ctx.floor(rule, n, scope.get("floor", 2))
+
+
+# ----------------------------------------------------------------------- R-PIECEWISE-CONT
+def _num(node, env):
+    """numeric evaluation of a branch increment on a witness environment (keys: source text)"""
+    key = ast.unparse(node)
+    if key in env:
+        return env[key]
+    if isinstance(node, ast.Constant) and isinstance(node.value, (int, float)):
+        return float(node.value)
+    if isinstance(node, ast.UnaryOp) and isinstance(node.op, (ast.USub, ast.UAdd)):
+        v = _num(node.operand, env)
+        return -v if isinstance(node.op, ast.USub) else v
+    if isinstance(node, ast.BinOp):
+        a, b = _num(node.left, env), _num(node.right, env)
+        if isinstance(node.op, ast.Add):
+            return a + b
+        if isinstance(node.op, ast.Sub):
+            return a - b
+        if isinstance(node.op, ast.Mult):
+            return a * b
+        if isinstance(node.op, ast.Div):
+            if b == 0:
+                raise _Undecided("division by zero on the witness")
+            return a / b
+        if isinstance(node.op, ast.Pow):
+            return a ** b
+        raise _Undecided(ast.dump(node.op))
+    if isinstance(node, ast.Call) and len(node.args) == 1 and not node.keywords:
+        fn = node.func
+        name = fn.attr if isinstance(fn, ast.Attribute) else (fn.id if isinstance(fn, ast.Name) else None)
+        v = _num(node.args[0], env)
+        if name in ("abs", "fabs"):
+            return abs(v)
+        if name == "sign":
+            return (v > 0) - (v < 0)
+        if name == "sqrt" and v >= 0:
+            return math.sqrt(v)
+        if name == "exp":
+            return math.exp(v)
+        raise _Undecided(ast.unparse(node)[:40])
+    if isinstance(node, (ast.Name, ast.Subscript, ast.Attribute)):
+        # any other quantity (data entries, sizes): one fixed non-special witness per source text
+        h = sum((i + 1) * ord(c) for i, c in enumerate(key)) % 97
+        return 0.37 + h / 53.0
+    raise _Undecided(type(node).__name__)
+
+
+def _increment(body):
+    """(target text, value expr) of a one-statement branch `t += e` / `t = t + e` / `t -= e`"""
+    if len(body) != 1:
+        return None
+    st = body[0]
+    if isinstance(st, ast.AugAssign) and isinstance(st.op, (ast.Add, ast.Sub)):
+        v = st.value if isinstance(st.op, ast.Add) else ast.UnaryOp(op=ast.USub(), operand=st.value)
+        return ast.unparse(st.target), v
+    if isinstance(st, ast.Assign) and len(st.targets) == 1:
+        return ast.unparse(st.targets[0]), st.value
+    return None
+
+
+def r_piecewise_cont(A, ctx, scope, rule="R-PIECEWISE-CONT"):
+    ctx.rule(rule, "piecewise datafits are continuous where their pieces meet: for every two-armed "
+             "`if |r| < t` (or `r < t`) inside a datafit accessor whose arms add a term to the same "
+             "accumulator, both terms are equal at r = t (and r = -t under abs) for three witness values "
+             "of t and of every other quantity - the documented piecewise losses (Huber) and their "
+             "derivatives are continuous at the junction; a constant slip in one arm (delta for delta^2) "
+             "breaks the value without touching the gradient")
+    n = 0
+    for cls in A.prog.datafits:
+        for name, f in sorted(cls.methods.items()):
+            for node in ast.walk(f.node):
+                if not (isinstance(node, ast.If) and node.orelse and isinstance(node.test, ast.Compare)
+                        and len(node.test.ops) == 1 and isinstance(node.test.ops[0], (ast.Lt, ast.LtE, ast.Gt, ast.GtE))):
+                    continue
+                a, b = _increment(node.body), _increment(node.orelse)
+                if a is None or b is None or a[0] != b[0]:
+                    continue
+                lhs, rhs = node.test.left, node.test.comparators[0]
+                if isinstance(node.test.ops[0], (ast.Gt, ast.GtE)):
+                    lhs, rhs = rhs, lhs
+                    # `t > |r|` is `|r| < t` with the arms in the same order
+                under_abs = isinstance(lhs, ast.Call) and len(lhs.args) == 1 and \
+                    ast.unparse(lhs.func) in ("abs", "np.abs", "np.fabs", "math.fabs")
+                var = lhs.args[0] if under_abs else lhs
+                if not isinstance(var, ast.Name) or var.id in _names(rhs):
+                    continue
+                bad, und = None, None
+                for tval in (0.5, 2.0, 3.25):
+                    for sgn in ((1, -1) if under_abs else (1,)):
+                        env = {ast.unparse(rhs): tval, var.id: sgn * tval}
+                        try:
+                            va, vb = _num(a[1], env), _num(b[1], env)
+                        except (_Undecided, OverflowError, ZeroDivisionError) as e:
+                            und = str(e)
+                            continue
+                        if abs(va - vb) > 1e-9 * (1 + abs(va) + abs(vb)):
+                            bad = (tval, sgn * tval, va, vb)
+                if und and bad is None:
+                    ctx.note(f"{rule}: {f.fq}: `{ast.unparse(node.test)}` arms outside the evaluated fragment ({und})")
+                    continue
+                n += 1
+                ctx.ob(rule, f"{f.fq}::{ast.unparse(node.test)[:40]}", bad is None,
+                       detail="arms agree at the junction on 3 witnesses",
+                       what=(f"{cls.name}.{name}: the arms of `if {ast.unparse(node.test)}` add "
+                             f"`{ast.unparse(a[1])[:50]}` and `{ast.unparse(b[1])[:60]}`, which differ at the "
+                             f"junction ({ast.unparse(rhs)} = {bad[0]}, {var.id} = {bad[1]}: {bad[2]:.6g} vs "
+                             f"{bad[3]:.6g}): the piecewise function jumps where its pieces meet, it is not the "
+                             f"documented (continuous) loss / derivative") if bad else "",
+                       loc=f"{f.module.relpath}:{node.lineno}")
+    ctx.floor(rule, n, scope.get("floor", 3))
